@@ -151,7 +151,55 @@ def run_case(initial, ops):
     return v
 
 
+def copy_case(initial, ops, source_kind):
+    """a mapping built FROM another container (another multi-mapping, an immutable one, a list, a dict): afterwards the two are
+    independent - mutating one must not show in any view of the other, and the views of each stay consistent"""
+    from baize.datastructures import MutableMultiMapping, MultiMapping, QueryParams
+    init = list(initial)
+    if source_kind == "mutable":
+        src = MutableMultiMapping(list(init))
+    elif source_kind == "immutable":
+        src = MultiMapping(list(init))
+    elif source_kind == "query":
+        src = QueryParams([(k, str(v)) for k, v in init])
+        init = [(k, str(v)) for k, v in init]
+    else:
+        src = list(init)
+    a = MutableMultiMapping(src)
+    b = MutableMultiMapping(src)          # a second one from the same source
+    ref_a, ref_b, ref_src = Ref(init), Ref(init), Ref(init)
+    v = []
+    for op in ops:
+        if source_kind == "query" and len(op) > 2 and not isinstance(op[2], tuple):
+            op = (op[0], op[1], str(op[2]))
+        elif source_kind == "query" and len(op) > 2:
+            op = (op[0], op[1], tuple(str(x) for x in op[2]))
+        mis = apply(a, ref_a, op)
+        if mis:
+            v.append("on the copy: " + mis)
+            break
+        v += ["copy: " + x for x in views_agree(a, ref_a)]
+        v += ["second copy (untouched): " + x for x in views_agree(b, ref_b)]
+        if not isinstance(src, list):
+            v += ["source (untouched): " + x for x in views_agree(src, ref_src)]
+        elif src != init:
+            v.append("the source list changed: %r" % (src,))
+        if v:
+            break
+    if not v and source_kind == "mutable" and ops:
+        # ... and the other way round: mutate the source, look at the copy
+        c = MutableMultiMapping(src)
+        ref_c = Ref([tuple(p) for p in src.multi_items()])
+        ref_s = Ref([tuple(p) for p in src.multi_items()])
+        mis = apply(src, ref_s, ops[0])
+        if not mis:
+            v += ["copy after the source was mutated: " + x for x in views_agree(c, ref_c)]
+    return v
+
+
 def replay(inputs):
+    if inputs.get("kind") == "copy":
+        return {"violated": copy_case([tuple(p) for p in inputs["initial"]], [tuple(o) if not isinstance(o[-1], list) else (o[0], o[1], tuple(o[2])) for o in inputs["ops"]], inputs["source"])}
     if inputs.get("kind") == "query":
         return {"violated": query_case([tuple(p) for p in inputs["pairs"]])}
     return {"violated": run_case([tuple(p) for p in inputs["initial"]], [tuple(o) if not isinstance(o[-1], list) else (o[0], o[1], tuple(o[2])) for o in inputs["ops"]])}
@@ -214,6 +262,18 @@ def bounded(tier, seed):
         distinct.add((init, seq))
         if v and len(failures) < 10:
             failures.append({"inputs": {"initial": [list(p) for p in init], "ops": [list(o) for o in seq]}, "violated": v[:3]})
+    # mappings built from other containers are independent of them
+    for source_kind in ("mutable", "immutable", "query", "list"):
+        for init in [i for i in initials if len(i) in (0, 2, 3)][:: (1 if tier == "thorough" else 3)]:
+            for op in ops:
+                for op2 in (None, ("append", "a", 1)):
+                    seq = (op,) if op2 is None else (op, op2)
+                    evals += 1
+                    v = copy_case(init, seq, source_kind)
+                    distinct.add(("copy", source_kind, init, seq))
+                    if v and len(failures) < 10:
+                        failures.append({"inputs": {"kind": "copy", "source": source_kind, "initial": [list(p) for p in init],
+                                                    "ops": [list(o) for o in seq]}, "violated": v[:3]})
     alpha = ["a", "&", "=", " ", "%", "é", "", "+"]
     for n in (0, 1, 2, 3):
         allp = list(itertools.product(itertools.product(alpha, repeat=2), repeat=n))
@@ -226,7 +286,8 @@ def bounded(tier, seed):
     return {"evaluations": evals, "distinct_nontrivial": len(distinct), "failures": failures, "samples": samples,
             "rule": "all operation sequences up to length %d (length 3: seeded sample) over 22 operations on keys {a,b} x values "
                     "{1,2} from every initial pair list of length <= 3, plus seeded longer ones, compared after every step with "
-                    "a plain ordered list of pairs (multi_items, getlist, indexing, keys, len, membership); QueryParams round "
+                    "a plain ordered list of pairs (multi_items, getlist, indexing, keys, len, membership); mappings built from another "
+                    "mapping / list stay independent of it under every operation; QueryParams round "
                     "trip and QueryParams/FormData/MultiMapping view agreement over pair lists of length <= 3 on an alphabet "
                     "with '&', '=', ' ', '%%', '+', non-ASCII and ''" % maxlen,
             "exhaustive": False}
